@@ -43,11 +43,13 @@ type LoopAnn struct {
 }
 
 type Sweep struct {
-	Target *ssa.Function
-	Name   string
-	Props  []string
-	Kinds  map[string]bool // obligation kinds generated (nil: all)
-	Recv   bool            // noblock: receives are checked as well
+	Target     *ssa.Function
+	Name       string
+	Props      []string
+	Kinds      map[string]bool // obligation kinds generated (nil: all)
+	Recv       bool            // noblock: receives are checked as well
+	CloseField string          // closed-only-by: heap array name of the channel field
+	CloseBy    []string        // closed-only-by: functions allowed to close it
 }
 
 type SpecDB struct {
@@ -665,6 +667,19 @@ func (db *SpecDB) readFile(prog *ssa.Program, p *packages.Package, spkg *ssa.Pac
 						}
 						if a == "recv" {
 							sw.Recv = true
+						}
+					}
+					db.noblock = append(db.noblock, sw)
+				}
+			case "closed-only-by":
+				// closed-only-by <H.pkg.Type.field> <function>... props=…
+				if len(dir) >= 3 {
+					sw := &Sweep{Name: "closers:" + dir[1], CloseField: dir[1]}
+					for _, a := range dir[2:] {
+						if strings.HasPrefix(a, "props=") {
+							sw.Props = strings.Split(strings.TrimPrefix(a, "props="), ",")
+						} else {
+							sw.CloseBy = append(sw.CloseBy, expandName(a))
 						}
 					}
 					db.noblock = append(db.noblock, sw)
